@@ -464,7 +464,7 @@ class NotificationCenter(object):
                         continue
                 observation = dict(
                     observer=otherObserver(),
-                    observable=otherObservable(),
+                    observable=otherObservable() if otherObservable is not None else None,
                     notification=otherNotification,
                     identifier=otherIdentifier
                 )
